@@ -204,6 +204,34 @@ def make_array(kind, dt, order, layout, nd, rs, nelem=6):
     elif layout == "reversed":            # negative strides: a view that runs backwards through its base
         base = np.zeros(shape, dtype=dtype)
         a = base[::-1] if len(shape) == 1 else base[::-1, ::-1]
+    elif layout == "slice":               # a CONTIGUOUS view that does not own its data: rows 2..2+n of a longer parent the caller holds
+        n0 = shape[0] if shape else 1
+        base = np.zeros((n0 + 5,) + tuple(shape[1:]), dtype=dtype)
+        a = base[2:2 + n0] if shape else base[2:3].reshape(())
+    elif layout == "reshaped":            # a reshaped (1-d parent seen as n-d / 2-d parent seen flat) or transposed view of the parent
+        if len(shape) == 2:
+            base = np.zeros((shape[1], shape[0]), dtype=dtype)
+            a = base.T
+        elif len(shape) == 1:
+            base = np.zeros((shape[0], 1), dtype=dtype)
+            a = base.reshape(-1)
+        else:
+            base = np.zeros((1, 1), dtype=dtype)
+            a = base.reshape(())
+    elif layout == "recview" and dtype.names is not None:      # the table seen through np.recarray (numpy collapses the .base chain)
+        base = np.zeros((shape[0] + 3,) + tuple(shape[1:]) if shape else (3,), dtype=dtype)
+        a = (base[1:1 + shape[0]] if shape else base[1:2].reshape(())).view(np.recarray)
+    elif layout in ("fieldview", "recview") and dtype.names is None:
+        # the array is one FIELD of a structured parent (strided by the parent's row size)
+        pdt = np.dtype([("pad0", "i2"), ("val", dtype), ("pad1", "S3")])
+        base = np.zeros(shape if shape else (1,), dtype=pdt)
+        a = base["val"] if shape else base["val"].reshape(())
+    elif layout == "fieldview":           # a structured argument that is a multi-field view of a wider parent table
+        names = list(dtype.names)
+        pdt = np.dtype([("pad0", "i2")] + [(n, dtype[n]) for n in names] + [("pad1", "S3")])
+        base = np.zeros(shape if shape else (1,), dtype=pdt)
+        a = base[names] if shape else base[names].reshape(())
+        dtype = a.dtype
     else:
         if shape == ():
             base = np.zeros(3, dtype=dtype)
@@ -217,7 +245,7 @@ def make_array(kind, dt, order, layout, nd, rs, nelem=6):
     assert a.shape == shape, (a.shape, shape)
     # ---- values
     if dtype.names is not None:
-        if layout == "strided":
+        if layout in ("strided", "slice", "recview") :
             fill_rec(base, rs)
         if kind == "wcsrec":
             hdr = ns_const("TAN_HDR")
@@ -228,7 +256,7 @@ def make_array(kind, dt, order, layout, nd, rs, nelem=6):
             fill_rec(tmp, rs)
             a[...] = tmp
     else:
-        if layout == "strided":
+        if layout in ("strided", "slice"):
             base[...] = rs.uniform(1, 2, size=base.shape).astype(dtype)
         if kind == "cov":
             m = rs.uniform(-1, 1, size=(3, 3))
@@ -273,6 +301,9 @@ def snapshot(a):
     import numpy as np
     b = root_base(a)
     raw = np.ascontiguousarray(b).view(np.uint8).tobytes() if b.dtype.hasobject is False and b.size else b.tobytes()
+    if b is not a:
+        # the argument is a view of a parent the caller holds: the PARENT's whole buffer (above) and the view's own elements
+        raw = raw + b"|view|" + a.tobytes()
     meta = "dtype=%s;descr=%s;shape=%s;strides=%s;writeable=%s;base_dtype=%s;base_shape=%s;base_strides=%s" % (
         a.dtype.str, a.dtype.descr, a.shape, a.strides, a.flags.writeable, b.dtype.descr, b.shape, b.strides)
     return raw.hex(), meta
@@ -373,6 +404,9 @@ def forms(d, full):
                  the caller's array now raises "... read-only"; such an exception is reported as a failing input
          alias0 / alias1   the SAME array object is passed for every (non-exempt) array parameter (the first / the last one's)
          reversed layout   a view with negative strides
+         slice / recview / fieldview / reshaped layouts: the argument is a contiguous row slice, a recarray view, a field view or a
+                 reshaped / transposed view of a PARENT array the caller holds;  roview: only the view is read-only, its parent is writeable
+         seq     a call SEQUENCE in one process (see impl_seq): caches keyed by identity / shape, references stored by an earlier call
          special -0.0, NaN and the smallest denormals in the first elements of every float array / float field
          len1    length-1 arrays;  long  4099 elements (thorough only)
          unsigned / bool dtypes where the driver takes plain numeric arrays"""
@@ -384,18 +418,29 @@ def forms(d, full):
         out.append((dt0, "swapped", "strided", nd1, "ro"))
     if n_checked(d) >= 2:
         out += [(dt0, "native", "contig", nd1, "alias0")] + ([(dt0, "native", "contig", nd1, "alias1")] if full else [])
-    if nd1 >= 1:
+    if nd1 >= 1 and (full or d["dt"] != drv.REC):
         out.append((dt0, "native", "reversed", nd1, "plain"))
+    # arguments that are views whose BASE is another array the caller holds (the snapshot covers the parent's whole buffer and the view)
+    out += [(dt0, "swapped", "slice", nd1, "plain"), (dt0, "swapped", "recview", nd1, "plain")]
+    if full:
+        out += [(dt0, "native", "slice", nd1, "roview"), (dt0, "native", "reshaped", nd1 if nd1 else nd0, "plain")]
+    if d["dt"] == drv.REC:
+        out.append((dt0, "swapped", "fieldview", nd1, "plain"))
+    out.append((dt0, "native", "contig", nd1, "seq"))
     out.append((dt0, "native", "contig", nd1, "special"))
-    if "f4" in d["dt"]:
+    if "f4" in d["dt"] and full:
         out.append(("f4", "native", "contig", nd1, "special"))
-    if 1 in d["nd"] and not d["slow"]:
+    if 1 in d["nd"] and not d["slow"] and (full or d["dt"] != drv.REC or d["fam"] != "recfile"):
         out.append((dt0, "native", "contig", 1, "len1"))
     if d["dt"] == drv.NUM:
         out.append(("u2", "native", "contig", nd1, "plain"))
     if full:
-        out += [(dt, o, lay, nd, "ro") for dt in d["dt"] for o in orders for lay in ("contig", "strided", "reversed") for nd in d["nd"]]
+        out += [(dt, o, lay, nd, "ro") for dt in d["dt"][:2] for o in orders for lay in ("contig", "strided", "reversed") for nd in d["nd"]]
         out += [(dt, o, "reversed", nd, "plain") for dt in d["dt"] for o in orders for nd in d["nd"]]
+        out += [(dt0, o, lay, nd, "plain") for o in orders for lay in ("slice", "recview", "fieldview", "reshaped") for nd in d["nd"]]
+        out += [(dt0, "swapped", lay, nd1, m) for lay in ("slice", "recview", "fieldview", "reshaped") for m in ("ro", "roview")]
+        out += [(dt, "swapped", "slice", nd1, "plain") for dt in d["dt"]]
+        out += [(dt0, o, lay, nd1, "seq") for o in orders for lay in ("contig", "slice")]
         if n_checked(d) >= 2:
             out += [(dt0, o, lay, nd, m) for o in orders for lay in ("contig", "strided") for nd in d["nd"] for m in ("alias0", "alias1")]
             out += [(dt0, "native", "contig", nd1, "alias0+ro")]
@@ -424,9 +469,9 @@ def variants(d, ctx, full):
     must.append((d["dt"][0], "native", "strided", d["nd"][0], "plain"))
     if len(d["dt"]) > 1:
         must.append((d["dt"][1], "swapped", "contig", d["nd"][0], "plain"))
-        must.append((d["dt"][-1], "native", "strided", d["nd"][0], "plain"))
         # the no-conversion corner exists once per dtype: a function called with dtype='f4' converts everything but native float32
-        for dt in d["dt"][1:]:
+        # (quick: float32 -- the only other dtype= value the anchored functions are called with; thorough has the full matrix)
+        for dt in [t for t in d["dt"][1:] if t == "f4"]:
             must.append((dt, "native", "contig", 1 if 1 in d["nd"] else d["nd"][0], "plain"))
     must = list(dict.fromkeys(must))
     rest = [v for v in allv if v not in must]
@@ -465,7 +510,7 @@ class Dyn(Entry):
                 seeds = seeds[:1]
             for (dt, o, lay, nd, mode) in vs:
                 first_plain = mode == "plain" and lay == "contig" and o == "native" and dt == d["dt"][0] and nd == d["nd"][0]
-                for vs_ in (seeds if mode == "plain" and lay != "reversed" and (not ctx.quick() or first_plain) else seeds[:1]):
+                for vs_ in (seeds if mode == "plain" and lay in ("contig", "strided") and (not ctx.quick() or first_plain) else seeds[:1]):
                     c = {"driver": d["name"], "dt": dt, "order": o, "layout": lay, "nd": nd, "vseed": vs_,
                          "family": "%s/%s" % (self.fam, d["func"])}
                     if mode != "plain":
@@ -515,6 +560,9 @@ class Dyn(Entry):
                 b = root_base(args[p])
                 b.flags.writeable = False
                 args[p].flags.writeable = False
+        if mode == "roview":                                    # only the view refuses writes; its parent stays writeable
+            for p in checked:
+                args[p].flags.writeable = False
         work = os.path.join(os.environ.get("C15_WORK") or core.SCRATCH_ROOT, "c15-files-%d" % os.getpid())
         os.makedirs(work, exist_ok=True)
         for p, ann in fix:
@@ -523,6 +571,8 @@ class Dyn(Entry):
                 if os.path.exists(path):
                     os.remove(path)
                 args[p] = path
+        if mode == "seq":
+            return self.impl_seq(c, d, arr, checked, args, rs, nelem)
         before = {p: snapshot(args[p]) for p in arr}
         err = None
         res = None
@@ -540,7 +590,7 @@ class Dyn(Entry):
         after = {p: snapshot(args[p]) for p in arr}
         out = {"error": err, "args": {}, "exempt_changed": []}
         # a refused write into a read-only argument: without the flag the call would have modified the caller's array
-        out["ro_write_attempt"] = bool(mode.endswith("ro") and err is not None and RO_MSG.search(err))
+        out["ro_write_attempt"] = bool((mode.endswith("ro") or mode == "roview") and err is not None and RO_MSG.search(err))
         if out["ro_write_attempt"]:
             RO_HITS[c["driver"]] = RO_HITS.get(c["driver"], 0) + 1
             DYN_CHANGED.setdefault(c["driver"], dict(c))
@@ -561,12 +611,77 @@ class Dyn(Entry):
             DYN_CHANGED.setdefault(c["driver"], dict(c))
         return out
 
+    def call(self, d, args):
+        import numpy as np
+        err, res, sink = None, None, io.StringIO()
+        old_handler = signal.signal(signal.SIGALRM, _on_alarm)
+        signal.setitimer(signal.ITIMER_REAL, CASE_TIMEOUT)
+        try:
+            with contextlib.redirect_stdout(sink), contextlib.redirect_stderr(sink), np.errstate(all="ignore"):
+                res = self.fn(d)(**args)
+        except Exception as e:
+            err = "%s: %s" % (type(e).__name__, str(e)[:200])
+        finally:
+            signal.setitimer(signal.ITIMER_REAL, 0)
+            signal.signal(signal.SIGALRM, old_handler)
+        return res, err
+
+    def impl_seq(self, c, d, arr, checked, A, rs, nelem):
+        """a call SEQUENCE in one process, arranged so that state carried across calls (a cache keyed by object identity, by shape /
+        dtype / length, a reference to an argument stored by an earlier call) would collide:
+          1  f(A)                       2  f(B): other objects, same shapes / dtypes / lengths, other values
+          (the caller overwrites A in place with B's values: same OBJECT, changed contents)
+          3  f(A) again                 4  f(C): C = copies of A (other objects, EQUAL contents)
+        Around EVERY call every array of every earlier set is snapshotted too: a later call that writes through a reference an
+        earlier call kept is seen on the earlier set.  File fixtures keep their path (the same file is rewritten)."""
+        import numpy as np
+        fixed = {p: A[p] for p in A if p not in arr}
+        B = dict(fixed)
+        for p in arr:
+            B[p] = make_array(d["gen"][p], c["dt"], c["order"], c["layout"], c["nd"], rs, nelem=nelem)
+        out = {"error": None, "args": {}, "exempt_changed": [], "ro_write_attempt": False, "ret_shares": [], "steps": []}
+        keep = []
+
+        def step(label, callargs, live):
+            pre = {(s, p): snapshot(X[p]) for s, X in live.items() for p in checked}
+            res, err = self.call(d, callargs)
+            keep.append(res)
+            post = {(s, p): snapshot(X[p]) for s, X in live.items() for p in checked}
+            for (s_, p) in pre:
+                out["args"]["%s@%s.%s" % (label, s_, p)] = [pre[(s_, p)][0], pre[(s_, p)][1], post[(s_, p)][0], post[(s_, p)][1]]
+            out["steps"].append([label, err])
+            if err is not None and out["error"] is None:
+                out["error"] = "step %s: %s" % (label, err)
+            return res
+
+        r1 = step("1", A, {"A": A})
+        out["ret_shares"] = sorted(p for p in checked if out["error"] is None and shares(r1, A[p]))
+        step("2", B, {"A": A, "B": B})
+        for p in checked:                       # the caller's own, legitimate, in-place change of A between two calls
+            try:
+                A[p][...] = B[p]
+            except Exception:
+                pass
+        step("3", A, {"A": A, "B": B})
+        C = dict(fixed)
+        for p in arr:
+            C[p] = A[p].copy()
+        step("4", C, {"A": A, "B": B, "C": C})
+        if out["error"] is not None:
+            ERRORS[c["driver"]] = ERRORS.get(c["driver"], 0) + 1
+        out["changed"] = sorted(k for k, v in out["args"].items() if v[0] != v[2] or v[1] != v[3])
+        if out["changed"]:
+            DYN_CHANGED.setdefault(c["driver"], dict(c))
+        return out
+
     def term(self, c, out):
         pairs = []
         for p in sorted(out["args"]):
             b0, m0, b1, m1 = out["args"][p]
             pairs.append("(%s, %s)" % (snap63(b0, m0), snap63(b1, m1)))
         ok = STATIC_OK.get(c["driver"], False)
+        if c.get("mode") == "seq":
+            ok = ok and STATIC_OK.get(c["driver"] + "#seq", ok)
         pid = PARAM_ID.get(c["driver"], {})
         obs = [pid[p] for p in out.get("ret_shares", []) if p in pid]
         return "v_case %s %s [%s] [%s] [%s]" % (cbool(bool(out.get("ro_write_attempt"))), cbool(ok), "; ".join("%d" % k for k in RET_STATIC.get(c["driver"], [])),
@@ -622,19 +737,85 @@ def exemptions():
     return out
 
 
+def twice_source(src, arr):
+    """the driver body TWICE in one function, the second time on a second set of array parameters (p -> p__2): the skeleton of
+    a call sequence.  State that the first call leaves behind (module globals, caches, object fields of objects built outside)
+    is visible to the second call inside the extractor, so a reference to a first-call argument that a second call writes
+    through fails the obligation for the parameters of the FIRST set."""
+    tree = ast.parse(src)
+    fdef = tree.body[0]
+    names = set(arr)
+
+    class Ren(ast.NodeTransformer):
+        def visit_Name(self, n):
+            if n.id in names:
+                return ast.copy_location(ast.Name(id=n.id + "__2", ctx=n.ctx), n)
+            return n
+
+    class NoRet(ast.NodeTransformer):
+        def visit_Return(self, n):
+            return ast.copy_location(ast.Assign(targets=[ast.Name(id="__r1", ctx=ast.Store())], value=n.value or ast.Constant(None)), n)
+
+    import copy
+    first = [NoRet().visit(copy.deepcopy(st)) for st in fdef.body]
+    second = [Ren().visit(copy.deepcopy(st)) for st in fdef.body]
+    extra = [ast.arg(arg=a.arg + "__2", annotation=None) for a in fdef.args.args if a.arg in names]
+    fdef.args.args = fdef.args.args + extra
+    fdef.body = first + second
+    ast.fix_missing_locations(tree)
+    return ast.unparse(tree) + "\n"
+
+
+SEQ = {}            # "<driver>#seq" -> derived driver dict
+
+
+def D(n):
+    return BY_NAME[n] if n in BY_NAME else SEQ[n]
+
+
+SEQ_QUICK_MAX = 300      # quick tier: sequence obligations only for drivers whose single-call skeleton has at most this many statements
+
+
+def extract_one(ctx, d):
+    arr, _ = params_of(d)
+    ps = [p for p in arr if p not in d["exempt"]]
+    try:
+        r = sk.extract(ctx.impl, d["src"], "f", ps, prelude=sk.DRIVER_PRELUDE + drv.PRELUDE)
+        r["checked"] = ps
+    except Exception as e:  # fail closed: an extractor crash is an undischarged obligation
+        r = {"error": "%s: %s" % (type(e).__name__, e), "checked": ps, "notes": [], "centries": [], "size": 0}
+    return r
+
+
 def extract_all(ctx):
     res = {}
+    SEQ.clear()
     for d in drv.DRIVERS:
         if d["name"] in SKIP:
             continue
-        arr, _ = params_of(d)
-        ps = [p for p in arr if p not in d["exempt"]]
+        res[d["name"]] = extract_one(ctx, d)
+    nseq = 0
+    seen_func = set()
+    for d in drv.DRIVERS:
+        r = res.get(d["name"])
+        if r is None or not r["checked"] or d.get("static_skip") or "error" in r:
+            continue
+        if ctx.quick():
+            # quick: ONE sequence obligation per public function (its first small driver) and every reuse_* driver; thorough: all
+            if (r.get("size", 0) > SEQ_QUICK_MAX or d["slow"] or d["func"] in seen_func) and not d["name"].startswith("reuse_"):
+                continue
+            seen_func.add(d["func"])
+        arr0, _ = params_of(d)
         try:
-            r = sk.extract(ctx.impl, d["src"], "f", ps, prelude=sk.DRIVER_PRELUDE + drv.PRELUDE)
-            r["checked"] = ps
-        except Exception as e:  # fail closed: an extractor crash is an undischarged obligation
-            r = {"error": "%s: %s" % (type(e).__name__, e), "checked": ps, "notes": [], "centries": [], "size": 0}
-        res[d["name"]] = r
+            d2 = dict(d, name=d["name"] + "#seq", src=twice_source(d["src"], arr0), valuation=(d["valuation"] or "default options") + " | called twice",
+                      exempt=dict(d["exempt"], **{k + "__2": v for k, v in d["exempt"].items()}))
+        except Exception as e:
+            ctx.notes.append("twice_source failed for %s: %s" % (d["name"], e))
+            continue
+        SEQ[d2["name"]] = d2
+        res[d2["name"]] = extract_one(ctx, d2)
+        nseq += 1
+    ctx.count("static:sequence_obligations", nseq)
     return res
 
 
@@ -645,8 +826,8 @@ def static_step(ctx, only=None):
     TIMES["static:extract"] = round(time.time() - t0, 1)
     t0 = time.time()
     names = []
-    for d in drv.DRIVERS:
-        if (only and d["name"] not in only) or d["name"] in SKIP:
+    for d in list(drv.DRIVERS) + list(SEQ.values()):
+        if (only and d["name"].split("#")[0] not in only) or d["name"] in SKIP:
             continue
         r = ex[d["name"]]
         if d.get("static_skip"):
@@ -684,7 +865,7 @@ def static_step(ctx, only=None):
     TIMES["static:coq_eval"] = round(time.time() - t0, 1)
     failed, why = [], {}
     for n in names:
-        d = BY_NAME[n]
+        d = D(n)
         nums = vals_by.get(n)
         ok = bool(nums) and nums[0] == 0
         STATIC_OK[n] = ok
@@ -854,11 +1035,13 @@ def run(ctx, replay=None):
     # with further value seeds (the runner's own search is triggered by model/implementation disagreement, which a failed
     # obligation does not produce: the model then predicts nothing)
     if replay is None:
-        search_failed(ctx, [n for n in failed if n not in dyn_fail])
+        search_failed(ctx, list(dict.fromkeys(n.split("#")[0] for n in failed if n.split("#")[0] not in dyn_fail)))
         dyn_fail = set(DYN_CHANGED)
     for n in failed:
-        d = BY_NAME[n]
-        if n in dyn_fail:
+        d = D(n)
+        if "#" in n and n.split("#")[0] in failed:
+            continue                  # the single call already fails: the sequence obligation adds nothing
+        if n.split("#")[0] in dyn_fail:
             ctx.notes.append("static obligation %s FAILED (%s) and the dynamic run found a failing input for it" % (n, why.get(n)))
         else:
             ctx.violation("static obligation frame_ok %s {%s | %s} is not discharged (%s); the dynamic search found no mutating input"
@@ -869,6 +1052,6 @@ def run(ctx, replay=None):
     for k, v in sorted(TIMES.items()):
         ctx.count("wall_s:" + k, round(v, 1))
     for n in dyn_fail:
-        if STATIC_OK.get(n):
+        if STATIC_OK.get(n) and STATIC_OK.get(n + "#seq", True):
             ctx.notes.append("EXTRACTOR DEFECT: %s mutates an argument although its skeleton obligation was discharged" % n)
             ctx.count("extractor:unsound_cases")
